@@ -20,7 +20,9 @@ matrix = json.load(open(mp)) if os.path.exists(mp) else {}
 def one(d):
     sid = os.path.basename(d)
     patch = os.path.join(d, 'patch.diff')
-    checks = EXTRA.get(sid) or [sid.split('_')[0]]
+    metap0 = os.path.join(d, 'meta.json')
+    meta0 = json.load(open(metap0)) if os.path.exists(metap0) else {}
+    checks = EXTRA.get(sid) or meta0.get('checks') or [sid.split('_')[0]]
     wt, out = f'/tmp/mm/wt_{sid}', f'/tmp/mm/out_{sid}'
     os.makedirs('/tmp/mm', exist_ok=True)
     shutil.rmtree(wt, ignore_errors=True)
